@@ -232,3 +232,162 @@ def reads_in_order(n, names):
         if nm in names and (not out or out[-1] != nm):
             out.append(nm)
     return out
+
+
+# ----------------------------------------------------------------------------------------
+# path conditions: under which condition (over the branch tests made so far) is a statement reached?
+# Formulas: ('true',) ('false',) ('atom', key) ('not', f) ('and', f, g) ('or', f, g).
+# `classify(expr)` maps a test to a formula or None (None: an opaque atom named by its source range).
+
+def _atom_key(n):
+    r = n.get('range', {})
+    b = r.get('begin', {})
+    e = r.get('end', {})
+    return 'x%s_%s' % (b.get('offset', b.get('expansionLoc', {}).get('offset', id(n))), e.get('offset', e.get('expansionLoc', {}).get('offset', '')))
+
+
+def cond_formula(n, classify):
+    n = strip(n)
+    f = classify(n)
+    if f is not None:
+        return f
+    k = n.get('kind')
+    if k == 'UnaryOperator' and n.get('opcode') == '!':
+        return ('not', cond_formula(kids(n)[0], classify))
+    if k == 'BinaryOperator' and n.get('opcode') in ('&&', '||'):
+        a, b = kids(n)
+        return ('and' if n.get('opcode') == '&&' else 'or', cond_formula(a, classify), cond_formula(b, classify))
+    if k == 'CXXBoolLiteralExpr':
+        return ('true',) if n.get('value') else ('false',)
+    if k in ('CXXMemberCallExpr', 'CXXOperatorCallExpr') and len(kids(n)) >= 1:
+        # `explicit operator bool` of a smart pointer and the like: the truth of the object it is called on
+        c = kids(n)
+        callee = strip(c[0])
+        if callee.get('kind') == 'MemberExpr' and (callee.get('name') or '').startswith('operator bool') and len(kids(callee)) == 1:
+            return cond_formula(kids(callee)[0], classify)
+    if k == 'DeclRefExpr':
+        return ('atom', 'v_' + str((n.get('referencedDecl') or {}).get('id', _atom_key(n))))
+    return ('atom', _atom_key(n))
+
+
+def _atoms(f, acc):
+    if f[0] == 'atom':
+        acc.add(f[1])
+    for g in f[1:]:
+        if isinstance(g, tuple):
+            _atoms(g, acc)
+    return acc
+
+
+def _ev(f, env):
+    t = f[0]
+    if t == 'true':
+        return True
+    if t == 'false':
+        return False
+    if t == 'atom':
+        return env[f[1]]
+    if t == 'not':
+        return not _ev(f[1], env)
+    if t == 'and':
+        return _ev(f[1], env) and _ev(f[2], env)
+    return _ev(f[1], env) or _ev(f[2], env)
+
+
+def implies(pc, goal):
+    """pc => goal for every truth assignment of the atoms (at most 12 atoms)"""
+    import itertools
+    at = sorted(_atoms(pc, _atoms(goal, set())))
+    if len(at) > 12:
+        raise Untranslatable('path condition with more than 12 atoms')
+    for vals in itertools.product((False, True), repeat=len(at)):
+        env = dict(zip(at, vals))
+        if _ev(pc, env) and not _ev(goal, env):
+            return False
+    return True
+
+
+def always_leaves(s):
+    """does control never fall out of the end of statement s (return / throw on every path)?"""
+    k = s.get('kind')
+    if k in ('ReturnStmt', 'CXXThrowExpr'):
+        return True
+    if k == 'ExprWithCleanups':
+        return any(always_leaves(c) for c in kids(s)[:1])
+    if k == 'CompoundStmt':
+        return any(always_leaves(c) for c in kids(s))
+    if k == 'IfStmt':
+        c = kids(s)
+        return len(c) == 3 and always_leaves(c[1]) and always_leaves(c[2])
+    return False
+
+
+def reached_under(body, classify, is_target):
+    """[(target node, path condition)] for every node n below `body` with is_target(n); the path condition is over the
+    tests of the enclosing and of the preceding early-leaving `if`s.  Loops: the body is reached under the loop test, the
+    code behind the loop under the path condition in front of it (the negated test is not used).  Tests are assumed free
+    of side effects on the atoms (they are reads of locals and of node fields under the mutex)."""
+    out = []
+
+    def expr_targets(e, pc):
+        for x in walk(e):
+            if x.get('kind') in ('LambdaExpr',):
+                continue
+            if is_target(x):
+                out.append((x, pc))
+
+    def stmt(s, pc):
+        """returns the path condition behind s"""
+        k = s.get('kind')
+        if k == 'CompoundStmt':
+            for c in kids(s):
+                pc = stmt(c, pc)
+            return pc
+        if k == 'IfStmt':
+            c = kids(s)
+            if s.get('hasInit') or s.get('hasVar'):
+                raise Untranslatable('if with an init-statement or a condition variable')
+            f = cond_formula(c[0], classify)
+            expr_targets(c[0], pc)
+            then_pc = ('and', pc, f)
+            else_pc = ('and', pc, ('not', f))
+            stmt(c[1], then_pc)
+            if len(c) == 3:
+                stmt(c[2], else_pc)
+            t_leaves = always_leaves(c[1])
+            e_leaves = len(c) == 3 and always_leaves(c[2])
+            if t_leaves and e_leaves:
+                return ('false',)
+            if t_leaves:
+                return else_pc
+            if e_leaves:
+                return then_pc
+            return pc
+        if k in ('WhileStmt', 'ForStmt', 'DoStmt', 'CXXForRangeStmt'):
+            c = kids(s)
+            if k == 'WhileStmt':
+                f = cond_formula(c[0], classify)
+                expr_targets(c[0], pc)
+                stmt(c[-1], ('and', pc, f))
+            else:
+                for x in c:
+                    if x.get('kind') in ('CompoundStmt', 'IfStmt', 'ReturnStmt', 'WhileStmt', 'ForStmt'):
+                        stmt(x, pc)
+                    else:
+                        expr_targets(x, pc)
+            return pc
+        if is_target(s):
+            out.append((s, pc))
+        if k == 'ReturnStmt':
+            for c in kids(s):
+                expr_targets(c, pc)
+            return ('false',)
+        if k in ('SwitchStmt', 'GotoStmt', 'LabelStmt', 'CXXTryStmt', 'BreakStmt', 'ContinueStmt'):
+            if any(is_target(x) for x in walk(s)) or k != 'CXXTryStmt':
+                raise Untranslatable('control flow this analysis does not follow (%s)' % k)
+        for c in kids(s):
+            expr_targets(c, pc)
+        return pc
+
+    stmt(body, ('true',))
+    return out
